@@ -163,8 +163,10 @@ def run_tlc(module, cfg, *, tag, workers=16, extra=(), timeout=3600, env=None, u
                     stats["coverage"]["%s@%s:%s" % (m.group(1), m.group(6), m.group(2))] = [int(m.group(7)), int(m.group(8))]
                     continue
                 m = _RE_COVLINE.match(line)
-                if m and int(m.group(6)) == 0:
-                    stats["zero_cov"].append("%s:%s:%s-%s:%s" % (m.group(5), m.group(1), m.group(2), m.group(3), m.group(4)))
+                if m:
+                    # TLC lists the expressions it evaluated (never-evaluated ones are simply absent from the report)
+                    if int(m.group(6)) > 0 and m.group(5) in ("NodeOps",):
+                        stats.setdefault("cov_points", []).append([int(m.group(1)), int(m.group(2))])
                     continue
                 if line.startswith("Error:") or "Exception" in line and "at " not in line[:4]:
                     if len(stats["errors"]) < 20:
